@@ -196,6 +196,12 @@ fn map_vertex_sets() {
 
     kani::assume(g1.v[0] && g2.v[0]);
 
+    // the third id (3) only ever occurs as an isolated vertex: keeps the query small while leaving
+    // "same order, same arcs, different isolated vertex" inside it
+    for u in 0..3 {
+        kani::assume(!g1.a[u][2] && !g1.a[2][u] && !g2.a[u][2] && !g2.a[2][u]);
+    }
+
     let mk = |g: &GV<3>| {
         let mut m = AdjacencyMap::empty(1);
 
@@ -207,8 +213,8 @@ fn map_vertex_sets() {
             }
         }
 
-        for u in 0..3 {
-            for v in 0..3 {
+        for u in 0..2 {
+            for v in 0..2 {
                 if g.a[u][v] {
                     m.add_arc(IDS[u], IDS[v]);
                 }
